@@ -297,6 +297,13 @@ class Kernel:
             # min(objects, key=attrgetter(F)).G  - the field G of the successor object with the smallest F
             keyf = dict(t[1][3])["key"]
             F = keyf[2][0][1] if keyf[0] == "call" and keyf[1] in ("attrgetter", "operator.attrgetter") and len(keyf[2]) == 1 and is_const(keyf[2][0]) else None
+            if F is None and keyf[0] == "closure" and keyf[1] in self.sx.closures:
+                # key=lambda s: s.F
+                import ast as _ast
+                lam = self.sx.closures[keyf[1]][0]
+                if isinstance(lam, _ast.Lambda) and len(lam.args.args) == 1 and isinstance(lam.body, _ast.Attribute) and isinstance(lam.body.value, _ast.Name) \
+                        and lam.body.value.id == lam.args.args[0].arg:
+                    F = lam.body.attr
             arg = t[1][2][0]
             last_wins = False
             while arg[0] == "call" and arg[1] in ("reversed", "list", "tuple") and len(arg[2]) == 1:
